@@ -203,7 +203,7 @@ func runLoop(run *vh.Run, e *env, c loopCase) {
 			}()
 		}
 		// wait until the batch is out, or for as long as a correct loop could possibly need
-		budget := time.Duration(n*nmech*c.SlowMs+6*c.IntervalMs+400) * time.Millisecond
+		budget := time.Duration(n*nmech*c.SlowMs+6*c.IntervalMs+20000) * time.Millisecond // generous: a loaded machine must not turn into a report
 		deadline := time.Now().Add(budget)
 		for time.Now().Before(deadline) && len(rec.snapshot()) < (seen+n)*nmech {
 			time.Sleep(2 * time.Millisecond)
